@@ -7,14 +7,16 @@
 (* `cfg` = {"n", "req": [[..],..], "iters": [{"members", "mode", "reps",   *)
 (* "sig", "raiseAt"}, ..]} (further fields - a recorded trace - are used   *)
 (* by ConcertinaTrace only).  JSON arrays arrive as sequences; `req` is    *)
-(* turned into a function to sets.  ConfigSeq[k] is the configuration of   *)
+(* turned into a function to sets.  ConfigOf(k) is the configuration of    *)
 (* line k with the derived fields                                          *)
 (*   itof : [Action -> Nat]  iteration of a statement, 0 = not iterated    *)
 (*   pos  : [Action -> Nat]  its position in the declared order           *)
 (*   ext  : [Action -> SUBSET Action]  what it reads from outside its own  *)
 (*                                     iteration                           *)
-(* (ConfigSeq is a definition, not a CONSTANT parameter, because TLC does  *)
-(* not cache the value of a substituted constant - measured 4x slower.)    *)
+(* The specifications keep the derived record of the current line in a     *)
+(* variable `cfg` (set in Init, never changed by a step): TLC re-evaluates *)
+(* a constant function [k \in .. |-> Derive(..)] at every application, so  *)
+(* memoising in the state is what makes a step cheap.                      *)
 (***************************************************************************)
 EXTENDS Naturals, Sequences, FiniteSets, Json, IOUtils
 
@@ -88,5 +90,5 @@ NormCfg(c) == [n |-> c.n,
                req |-> [a \in 1..c.n |-> Range(c.req[a])],
                iters |-> [k \in DOMAIN c.iters |-> NormGroup(c.iters[k])]]
 Lines == ndJsonDeserialize(IOEnv.C14_INPUT)
-ConfigSeq == [k \in DOMAIN Lines |-> Derive(NormCfg(Lines[k].cfg))]
+ConfigOf(k) == Derive(NormCfg(Lines[k].cfg))
 =============================================================================
